@@ -156,6 +156,22 @@ where
             let param = ValidationErrorKind::IndexMagicByte;
             return Err(Error::validation(param, "Index magic byte is not valid").into());
         }
+        // Record headers are the last section of the file: compare the extent implied by the header
+        // with the real file size (a truncated index keeps its 'written' flag)
+        let expected_size = self.header.serialized_size()
+            + (self.header.meta_size + self.header.records_count * self.header.record_header_size) as u64;
+        if self.file.size() != expected_size {
+            let param = ValidationErrorKind::IndexChecksum;
+            return Err(Error::validation(
+                param,
+                format!(
+                    "Index file size {} does not match the size implied by its header {}",
+                    self.file.size(),
+                    expected_size
+                ),
+            )
+            .into());
+        }
         Ok(())
     }
 
